@@ -42,6 +42,13 @@ def jobs(tier):
                        stubs=MPI, includes=incs, units=units + common, rename_defs=ren, unwind=unw, timeout=900,
                        desc=desc, functions=fns + ["ncmpii_error_mpi2nc"], bounds="nprocs<=4; every return code at every MPI-IO call",
                        assumptions=STUB_NOTE, findings=[kf] if kf else []))
+    from vlib.common import PUTVAR_UNITS, PUTVAR_FUNCS
+    for coll in (1, 0):
+        out.append(Job(oid="C11.put_var.%s" % ("coll" if coll else "indep"), harness="common/putvar.c",
+                       defines=["-DND=1", "-DCHECK_C11", "-DP_REC=1", "-DP_STRIDE=0", "-DP_COLL=%d" % coll, "-DVT_MAX=12"], stubs=MPI, units=PUTVAR_UNITS,
+                       unwind=5, object_bits=10, timeout=1500,
+                       desc="one level up: the whole blocking put path with an arbitrary MPI-IO failure at any of its calls returns an error",
+                       functions=PUTVAR_FUNCS, bounds="1-D record variable, count<=2, nprocs 2..4", assumptions=STUB_NOTE))
     from props.C16 import fillrec_jobs
     out += fillrec_jobs(tier, 'C11.fill', inject=True)
     from props.C16 import fillerup_jobs
